@@ -421,9 +421,37 @@ fn scale(w: &mut Worker) {
     }
 }
 
+/// Every evaluation stands for itself: after hundreds (thousands) of conditions in one run - well-formed
+/// ones, malformed ones, ones whose command reports an error, ones whose command does not exist - the
+/// next one is judged by the same rule, by all four consumers.
+fn history(w: &mut Worker) {
+    for n in w.tier.pick(vec![70usize, 300, 1000], vec![70usize, 300, 1000, 20000]) {
+        for (what, line) in [
+            ("well-formed", "x = not true and ( false or yes )"),
+            ("malformed", "x = not not ( true"),
+            ("failing-command", "x = not equals a"),
+            ("unknown-command", "x = not nosuchcommandatall a"),
+            ("failing-if", "if equals a\nend"),
+            ("mixed", "x = not not ( true\ny = not equals a\nif ( no\nend\nz = not false"),
+        ] {
+            let text = format!(
+                "i = set 0\nwhile less_than ${{i}} {}\ni = calc ${{i}} + 1\n{}\nend\nr1 = not not true\nr2 = not true\nr3 = not false or ( no and yes )\nif not true\nbad = set if\nend\nif false\nelseif not true\nbad = set elseif\nend\nwhile not true\nbad = set while\ngoto :out\nend\n:out\nif not not true\ngood = set yes\nend\nafter = set reached",
+                n, line
+            );
+            scale_case(
+                w,
+                &format!("history {} conditions {}", what, n),
+                &text,
+                &[("i", Some(n.to_string())), ("r1", Some("true".into())), ("r2", Some("false".into())), ("r3", Some("true".into())), ("bad", None), ("good", Some("yes".into())), ("after", Some("reached".into()))],
+            );
+        }
+    }
+}
+
 pub fn worker(w: &mut Worker) {
     let tier = w.tier;
     scale(w);
+    history(w);
     let rig = Rig::new();
     // pass 1: grammar sentences with true/false, generated from the (unambiguous) grammar by length
     let lmax = tier.pick(11usize, 14usize);
@@ -524,6 +552,9 @@ pub fn worker(w: &mut Worker) {
 }
 
 pub fn replay(case: &Value) -> Result<String, String> {
+    if let Some(r) = scale_replay(case) {
+        return r;
+    }
     let tokens: Vec<String> = case["tokens"]
         .as_array()
         .ok_or("no tokens")?
@@ -544,7 +575,7 @@ pub fn crash_sig(_case: &Value, kind: &str) -> String {
     kind.to_string()
 }
 
-pub const RULE: &str = "every token sequence up to the length bound over {T,F,and,or,(,)} that the grammar cond := disj ('and' disj)* ; disj := atom ('or' atom)* ; atom := value | '(' cond? ')' accepts, spelled with true/false, through each of not (run_instruction), if, elseif, while (scripts with marker commands); then the truthiness pool (all 2^n case variants of false/no/true/yes and 27 other values, among them values that start or end with a parenthesis) in 6 statement frames; then a command in condition position handing back each value of that pool and the words and, or, (, ), not, 'true and false', 'false or true', '( false )' as its output (one value, judged by the truthiness table); then all sentences up to the second bound with 5x5 truthy/falsy spellings. Oracle: recursive-descent reference evaluator. A case is (statement, consumer); non-trivial when the statement has an operator or group; states = distinct (consumer, value, length) classes; transitions = real evaluations. Scale cases: conjunctions, disjunctions and sequences of groups with 50/300 (thorough 3000) operands, groups nested 10/60 (thorough 400) deep, each with its value flipped by the last operand, through all four consumers The truthiness pool also has every case variant of and / or / not other than the lower-case one, and 33 words that are keywords or operators elsewhere (then, do, fi, &&, ==, -a ...): all ordinary truthy values";
+pub const RULE: &str = "every token sequence up to the length bound over {T,F,and,or,(,)} that the grammar cond := disj ('and' disj)* ; disj := atom ('or' atom)* ; atom := value | '(' cond? ')' accepts, spelled with true/false, through each of not (run_instruction), if, elseif, while (scripts with marker commands); then the truthiness pool (all 2^n case variants of false/no/true/yes and 27 other values, among them values that start or end with a parenthesis) in 6 statement frames; then a command in condition position handing back each value of that pool and the words and, or, (, ), not, 'true and false', 'false or true', '( false )' as its output (one value, judged by the truthiness table); then all sentences up to the second bound with 5x5 truthy/falsy spellings. Oracle: recursive-descent reference evaluator. A case is (statement, consumer); non-trivial when the statement has an operator or group; states = distinct (consumer, value, length) classes; transitions = real evaluations. Scale cases: conjunctions, disjunctions and sequences of groups with 50/300 (thorough 3000) operands, groups nested 10/60 (thorough 400) deep, each with its value flipped by the last operand, through all four consumers The truthiness pool also has every case variant of and / or / not other than the lower-case one, and 33 words that are keywords or operators elsewhere (then, do, fi, &&, ==, -a ...): all ordinary truthy values History: 70 / 300 / 1000 (thorough 20000) conditions of one kind (well-formed, malformed, failing command, unknown command, failing if, mixed) in one run, then not / if / elseif / while are judged as on a fresh state";
 pub const ASSUMPTIONS: &[&str] = &["atoms that are names of registered commands are excluded (they are dispatched as commands)", "ill-formed statements are not constrained"];
 pub const EXHAUSTIVE: bool = true;
 pub const WALL_CAP_S: (u64, u64) = (50, 1500);
